@@ -1,11 +1,12 @@
 import Feox.Fmt.CrashedTxn
+import Feox.Fmt.Blank
 /-!
 # Fmt.Reopen — opening again after a crashed open
 
 `replayIo_keeps_metadata`: the replay's writes (markers in the data area, one journal block) leave both
 metadata blocks alone.  `reopen_after_crashed_open`: the image the first open left is opened by
-`recover_clean_image` — no write, the same table.  The journal state of that image (clear) and its not
-being blank are hypotheses here; the differential reader evaluates both on every recovered image.
+`recover_clean_image` — no write, the same table.  The journal state of that image (clear) is a hypothesis here; the differential reader evaluates it on
+every recovered image.
 -/
 namespace Feox.Fmt
 open Feox.Gen Feox.Proto
@@ -76,7 +77,6 @@ theorem reopen_after_crashed_open (img0 img : Image) (size : Nat) (o : Opts) (in
     (hmd : Meta.decode (selectMeta (blockAt img FEOX_METADATA_BLOCK) (blockAt img FEOX_METADATA_BACKUP_BLOCK)) = some md)
     (hne : js.extents.isEmpty = false) (hco : coalesceExtents js.extents = some co)
     (hio : replayIo ⟨js.generation, js.slot⟩ js.extents = .ok (io1, p1))
-    (hnzF : imageAllZero (applyIo img io1) = false)
     (hjsF : decodeJournal ((List.range ALLOCATION_JOURNAL_BLOCKS).flatMap fun i => blockAt (applyIo img io1) (ALLOCATION_JOURNAL_START_BLOCK + i)) (size / BSZ) = .ok js2)
     (hclear : js2.extents = [])
     (hrep : Rep img0 md.version FEOX_DATA_START_BLOCK (size / BSZ) info d0) (ht : TiledBy d0 (size / BSZ) L FEOX_DATA_START_BLOCK)
@@ -110,7 +110,8 @@ theorem reopen_after_crashed_open (img0 img : Image) (size : Nat) (o : Opts) (in
   obtain ⟨m0, m7⟩ := replayIo_keeps_metadata img hne hco hio
     (fun r hr => by obtain ⟨a, b, c, _⟩ := hruns r hr; exact ⟨by omega, b, by omega⟩) hdisj
   obtain ⟨r2, a1, a2, a3, _, a5⟩ := recover_clean_image (applyIo img io1) size o info (maskRuns d0 (co.map toRun))
-    (filterRuns L (co.map toRun)) md js2 hro hsize (by rw [applyIo_size]; exact himg) hnzF
+    (filterRuns L (co.map toRun)) md js2 hro hsize (by rw [applyIo_size]; exact himg)
+    (not_blank_of_signature _ (by rw [m0, m7]; exact hsig))
     (by rw [m0, m7]; exact hsig) (by rw [m0, m7]; exact hmd) hjsF hclear hrepF htF hmarksF hnd hexp
   exact ⟨r2, a1, a2, a3, a5⟩
 
